@@ -485,6 +485,11 @@ func signature(j *job, culprit int, vi int, kind string) string {
 	if strings.HasPrefix(kind, "go-panic") && (strings.Contains(kind, "@ compiler.") || strings.Contains(kind, "@ checker.") || strings.Contains(kind, "@ ast.")) {
 		return "front-end " + kind // the panic site in the compiler / checker names the defect
 	}
+	if strings.Contains(kind, "receiver of another class") {
+		// a method call emitted for a nested pattern (getter, length, contains) was bound statically against the class of
+		// the enclosing value: one defect whatever parent and child forms are
+		return kind + " [nested pattern under a precisely typed scrutinee]"
+	}
 	p := j.cases[culprit]
 	multi := len(j.cases) > 1 || j.ctx == cSwitchCatchAll
 	key := fmt.Sprintf("%s\x00%s\x00%s\x00%v\x00%s", kind, ctxName[j.ctx], j.ty.name, multi, p.skel())
@@ -669,7 +674,67 @@ func normObs(o obs, shift int) string {
 	if o.sel == 0 {
 		return "no case"
 	}
-	return fmt.Sprintf("case %d %v", o.sel-shift, o.binds)
+	cb := make([]string, len(o.binds))
+	for i, b := range o.binds {
+		cb[i] = canonInspect(b)
+	}
+	return fmt.Sprintf("case %d %v", o.sel-shift, cb)
+}
+
+// canonInspect sorts the elements of hash collections inside an inspect string (their iteration order is unspecified
+// and differs from run to run).
+func canonInspect(s string) string {
+	open, hash := "", false
+	switch {
+	case strings.HasPrefix(s, "%{"):
+		open, hash = "%{", true
+	case strings.HasPrefix(s, "^["):
+		open, hash = "^[", true
+	case strings.HasPrefix(s, "%["):
+		open = "%["
+	case strings.HasPrefix(s, "{"):
+		open, hash = "{", true
+	case strings.HasPrefix(s, "["):
+		open = "["
+	default:
+		return s
+	}
+	if len(s) < len(open)+1 {
+		return s
+	}
+	inner := s[len(open) : len(s)-1]
+	cl := s[len(s)-1:]
+	var parts []string
+	depth, start, inStr := 0, 0, false
+	for i := 0; i < len(inner); i++ {
+		ch := inner[i]
+		switch {
+		case ch == '"' && (i == 0 || inner[i-1] != '\\'):
+			inStr = !inStr
+		case inStr:
+		case ch == '[' || ch == '{' || ch == '(':
+			depth++
+		case ch == ']' || ch == '}' || ch == ')':
+			depth--
+		case ch == ',' && depth == 0:
+			parts = append(parts, strings.TrimSpace(inner[start:i]))
+			start = i + 1
+		}
+	}
+	if strings.TrimSpace(inner[start:]) != "" {
+		parts = append(parts, strings.TrimSpace(inner[start:]))
+	}
+	for i, p := range parts {
+		if k := strings.Index(p, " => "); k >= 0 && hash && open != "^[" {
+			parts[i] = p[:k] + " => " + canonInspect(p[k+4:])
+		} else {
+			parts[i] = canonInspect(p)
+		}
+	}
+	if hash {
+		sortStrings(parts)
+	}
+	return open + strings.Join(parts, ", ") + cl
 }
 
 func firstLine(s string) string {
@@ -759,7 +824,7 @@ func main() {
 	engine.Main(&engine.Spec{
 		Prop:  "C30",
 		Level: "exploration",
-		Rule: "all patterns of depth ≤ 2 (thorough: also depth-3 spines) over {literal, relational, ==/!=, range (8 kinds), identifier, _, must, p?, p as x, p||q, p&&q, object/type (user class, subclass, built-in class, mixin), constant, list/tuple with and without (named) rest, map, record, set} " +
+		Rule: "all patterns of depth ≤ 2 (thorough: also depth-3 spines: every composite form with one slot holding a depth-2 pattern built from {1, x, _}, the other slot a variable; in 4 contexts, behind 3 never-matching patterns and under 6 precise types) over {literal, relational, ==/!=, range (8 kinds), identifier, _, must, p?, p as x, p||q, p&&q, object/type (user class, subclass, built-in class, mixin), constant, list/tuple with and without (named) rest, map, record, set} " +
 			"× 45 scrutinee values (ints, float, strings, symbols, nil, bools, lists, tuples, maps, records, sets, objects of a class and a subclass) in: switch+else, switch+catch-all case, behind each of 12 (quick: 6) never-matching patterns, if-match, match expression, var/val pattern declaration; statically typed `any` and 16 (quick: 12) precise types (patterns predicted inadmissible for the type are skipped); " +
 			"all ordered pairs of 40 (quick: 24) and triples of 12 representative patterns; exhaustive switches without else over bool, nilable and union types. Oracle: reference matcher (selected case, every bound variable). A case is non-trivial when the reference specifies its outcome; cases are not repeated",
 		Assume: []string{"the reference matcher's rules are those stated by compiler/bytecode_compiler.go pattern(), types/checker/pattern.go and the `#contains` doc comments", "a missing map/record key is UNSPECIFIED unless the sub-pattern cannot match an absent entry", "identifier patterns naming an existing variable, repeated identifiers and guards (no grammar) are outside the space"},
@@ -845,7 +910,14 @@ func run(c *engine.Ctx) {
 		nevers = nevers[:6]
 	}
 	const per = 24
+	d3Tys := map[string]bool{"ArrayList[any]": true, "ArrayTuple[any]": true, "HashMap[any,any]": true, "HashRecord[any,any]": true, "Foo": true, "ArrayList[any]|Foo|Int": true}
 	for _, g := range groups {
+		g := g
+		deep := strings.HasPrefix(g.id, "d3/")
+		gNevers := nevers
+		if deep {
+			gNevers = []*Pat{nevers[1], nevers[4], nevers[6]}
+		}
 		var normal, risky []*Pat
 		for _, p := range g.pats {
 			if crashProne(p) {
@@ -871,7 +943,10 @@ func run(c *engine.Ctx) {
 					}
 					if declares(p) && p.F != fAs {
 						// declarations must declare something
-						jobs = append(jobs, mkJob(cVarDecl, anyTyping, g.id, p), mkJob(cValDecl, anyTyping, g.id, p))
+						jobs = append(jobs, mkJob(cValDecl, anyTyping, g.id, p))
+						if !deep {
+							jobs = append(jobs, mkJob(cVarDecl, anyTyping, g.id, p))
+						}
 					} else {
 						// a match expression outside a condition must not declare anything
 						jobs = append(jobs, mkJob(cMatchExpr, anyTyping, g.id, p))
@@ -889,7 +964,7 @@ func run(c *engine.Ctx) {
 					b.aux = true
 					jobs = append(jobs, b)
 				}
-				for _, n := range nevers {
+				for _, n := range gNevers {
 					for _, p := range ch {
 						if !admissible(p, nil, nil) {
 							continue
@@ -904,6 +979,9 @@ func run(c *engine.Ctx) {
 				var jobs []*job
 				for _, ty := range tys {
 					if !c.Thorough && quickTys[ty.name] {
+						continue
+					}
+					if deep && !d3Tys[ty.name] {
 						continue
 					}
 					for _, p := range ch {
